@@ -42,10 +42,41 @@ def _in_pred(items):
     return lambda c: any(t(c) for t in tests)
 
 
+def _ic_wrap(members_pred_cps):
+    """predicate for a literal / set under re.IGNORECASE (exact sre semantics, vlib.casefold)"""
+    from vlib import casefold
+    targets = casefold.fixed_targets(members_pred_cps)
+    return functools.lru_cache(None)(lambda c: casefold.lower(ord(c)) in targets)
+
+
+def _in_pred_ic(items):
+    negate = False
+    members = set()
+    cats = []
+    for op, av in items:
+        if op is sc.NEGATE:
+            negate = True
+        elif op is sc.LITERAL:
+            members.add(av)
+        elif op is sc.RANGE:
+            if av[1] - av[0] > 4096:
+                raise E.Unsupported('wide range under IGNORECASE')
+            members.update(range(av[0], av[1] + 1))
+        elif op is sc.CATEGORY and str(av) in ('CATEGORY_DIGIT', 'CATEGORY_SPACE'):
+            cats.append(_cat_pred(str(av)))
+        else:
+            raise E.Unsupported('charset item %s under IGNORECASE' % (op,))
+    base = _ic_wrap(members)
+    if negate:
+        return lambda c: not (base(c) or any(t(c) for t in cats))
+    return lambda c: base(c) or any(t(c) for t in cats)
+
+
 class _Compiled:
     """parse tree with per-node predicates prepared once"""
 
     def __init__(self, pattern, flags):
+        self.ic = bool(flags & re.IGNORECASE)
         self.tree = sp.parse(pattern, flags)
         self.groups = self.tree.state.groups
         self.groupindex = dict(self.tree.state.groupdict)
@@ -55,13 +86,17 @@ class _Compiled:
         p = self.preds.get(node_id)
         if p is None:
             if op is sc.LITERAL:
-                p = (lambda c, v=av: ord(c) == v)
+                p = _ic_wrap([av]) if self.ic else (lambda c, v=av: ord(c) == v)
             elif op is sc.NOT_LITERAL:
-                p = (lambda c, v=av: ord(c) != v)
+                if self.ic:
+                    q = _ic_wrap([av])
+                    p = (lambda c, q=q: not q(c))
+                else:
+                    p = (lambda c, v=av: ord(c) != v)
             elif op is sc.ANY:
                 p = (lambda c: c != '\n')
             elif op is sc.IN:
-                p = _in_pred(av)
+                p = _in_pred_ic(av) if self.ic else _in_pred(av)
             self.preds[node_id] = p
         return p
 
